@@ -94,6 +94,7 @@ def encodeVals (ops : FloatOps) : List Field → List GoVal → Res Bytes
   | [], _ :: _ => .err .panic
   | f :: fs, v :: vs =>
     if v = GoVal.nil then encodeVals ops fs vs
+    else if !integerFitsColumn f v then .err .intRange
     else
       match appendBinaryValue ops f.typ v with
       | .err e => .err e
@@ -179,12 +180,16 @@ theorem buildRowLoop_spec (ops : FloatOps) (fields : List Field) (vals : List Go
               simp [hk, hk2]; omega
             · simp [hk, hk2]; omega
       · simp only [hv, if_false] at h
+        cases hfit : integerFitsColumn f v with
+        | false => simp [hfit] at h
+        | true =>
+        simp only [hfit, Bool.not_true, Bool.false_eq_true, if_false] at h
         cases ha : appendBinaryValue ops f.typ v with
         | err e => simp [ha] at h
         | ok b =>
           simp only [ha] at h
           obtain ⟨⟨enc, henc, hp⟩, hl, hb', hbit⟩ := ih fs (j + 1) (payload ++ b) bm h hb
-          refine ⟨⟨b ++ enc, by simp [encodeVals, hv, ha, henc], by rw [hp]; simp⟩, hl, hb', ?_⟩
+          refine ⟨⟨b ++ enc, by simp [encodeVals, hv, hfit, ha, henc], by rw [hp]; simp⟩, hl, hb', ?_⟩
           intro k
           rw [hbit k]
           congr 1
@@ -264,6 +269,10 @@ theorem decodeCols_correct (ops : FloatOps) (hops : FloatOpsOk ops) (fields : Li
                 subst hconv
                 have hx := parseTextValue_ne_nil ops f cell x hp
                 simp only [encodeVals, hx, if_false] at henc
+                cases hfit : integerFitsColumn f x with
+                | false => simp [hfit] at henc
+                | true =>
+                simp only [hfit, Bool.not_true, Bool.false_eq_true, if_false] at henc
                 cases ha : appendBinaryValue ops f.typ x with
                 | err e => simp [ha] at henc
                 | ok b =>
@@ -430,7 +439,9 @@ theorem buildRowLoop_no_panic (ops : FloatOps) (fields : List Field) (vals : Lis
         simp only [setNullBit, hpos, if_true]
         apply ih fs (j + 1) payload _ hlen
         simp; rw [show j + 1 + vs.length + 1 = j + (vs.length + 1) + 1 by omega]; exact hbm
-      · have h1 := appendBinaryValue_no_panic ops f.typ v
+      · split
+        · simp
+        have h1 := appendBinaryValue_no_panic ops f.typ v
         cases ha : appendBinaryValue ops f.typ v with
         | err e => rw [ha] at h1; simpa using h1
         | ok b =>
